@@ -169,11 +169,33 @@ def replay(repo, run, step_timeout=1.0):
     calls.append(["join", getattr(self, "_vidx", -1)]); return orig_join(self, *a, **k)
   lio.AudioThread.stop = stop_; lio.AudioThread.join = join_
 
+  mgr_box = {}
+  mgr_ready = threading.Event()
+  def closer2_script():
+    """a second thread closing the same manager; what it finds when ITS close() returns is recorded"""
+    mgr_ready.wait(10)
+    g = sch.gate_of(threading.get_ident(), "closer2")
+    sys.settrace(sch.tracer)
+    try:
+      m2 = mgr_box["mgr"]
+      m2.close()
+      result["c2_post"] = {"terminated": len([e for e in log if e[0] == "terminate"]),
+                           "streams_open": len(m2._pa._streams),
+                           "players_alive": [bool(p is not None and p.is_alive()) for p in players],
+                           "closes": len([e for e in log if e[0] == "close"]), "opens": len([e for e in log if e[0] == "open"])}
+    except BaseException as e:
+      result["c2_exc"] = "%s: %s" % (type(e).__name__, e)
+    finally:
+      sys.settrace(None)
+      with g.cv:
+        g.finished = True; g.cv.notify_all()
+
   def main_script():
     g = sch.gate_of(threading.get_ident(), "main")
     sys.settrace(sch.tracer)
     try:
       mgr = lio.AudioIO(wait=run["wait"])
+      mgr_box["mgr"] = mgr; mgr_ready.set()
       for p in range(P):
         n = run["L"][p] * CH
         mgr.play([float(i % 3) for i in range(n)], chunk_size=CH)
@@ -197,7 +219,9 @@ def replay(repo, run, step_timeout=1.0):
         g.finished = True; g.cv.notify_all()
 
   mt = threading.Thread(target=main_script, daemon=True)
+  c2t = threading.Thread(target=closer2_script, daemon=True) if run.get("closers") == 2 else None
   mt.start()
+  if c2t is not None: c2t.start()
   # the main thread registers its gate under its own ident on first traced line
   t0 = time.time()
   while mt.ident not in sch.gates and time.time() - t0 < 5: time.sleep(0.005)
@@ -205,6 +229,13 @@ def replay(repo, run, step_timeout=1.0):
 
   def gate_for(th):
     if th in gates and gates[th] is not None: return gates[th]
+    if c2t is not None and th == P + 1:
+      t0 = time.time()
+      while time.time() - t0 < step_timeout:
+        if c2t.ident is not None and c2t.ident in sch.gates:
+          gates[th] = sch.gates[c2t.ident]; return gates[th]
+        time.sleep(0.002)
+      return None
     # a player's gate appears when its thread starts running
     t0 = time.time()
     while time.time() - t0 < step_timeout:
@@ -260,16 +291,18 @@ def replay(repo, run, step_timeout=1.0):
     # let everything run to completion (the model's run is complete)
     sch.release_all()
     mt.join(step_timeout * 3)
+    if c2t is not None: c2t.join(step_timeout * 3)
     alive = [p for p in players if p is not None and p.is_alive()]
-    if mt.is_alive() or alive:
-      status, detail = "hang", "after the schedule: main alive=%s players alive=%d" % (mt.is_alive(), len(alive))
+    if mt.is_alive() or alive or (c2t is not None and c2t.is_alive()):
+      status, detail = "hang", "after the schedule: main alive=%s players alive=%d second closer alive=%s" % (
+          mt.is_alive(), len(alive), c2t.is_alive() if c2t is not None else None)
   events = [[e[0]] + ([e[1]] if len(e) > 1 and e[0] != "write" else ([e[1]] if e[0] == "write" else [])) for e in log
             if e[0] != "write-fails"]
   writes = {}
   for e in log:
     if e[0] == "write": writes.setdefault(e[1], []).append(e[2])
   return {"status": status, "detail": detail, "events": events, "grants": getattr(sch, "trace", []), "main_exc": result["main_exc"],
-          "raised_after_close": result["raised_after_close"],
+          "raised_after_close": result["raised_after_close"], "c2_post": result.get("c2_post"), "c2_exc": result.get("c2_exc"),
           "writes": {str(k): [v.hex() for v in vs] for k, vs in writes.items()},
           "main_alive": mt.is_alive(), "players_alive": [bool(p is not None and p.is_alive()) for p in players],
           "halting_flags": [bool(getattr(p, "halting", False)) if p is not None else None for p in players],
